@@ -229,7 +229,11 @@ def st_schedule(draw):
             ops.append(["burst", conn, draw(st.integers(2, 14)), draw(st.sampled_from(["close", "replace"])),
                         draw(st.sampled_from([0, 1, 2, 3, 5, 8]))])
         elif k == 10:
-            ops.append(["yield", draw(st.integers(1, 5))])
+            ops.append(draw(st.sampled_from([["yield", 1], ["yield", 3], ["yield", 5], ["advance", 45], ["advance", 4000]])))
+        elif k == 11 and draw(st.booleans()):
+            # a REQ without any usable filter under an id of its own (answered EOSE, never registered), directly followed by
+            # the CLOSE of another subscription
+            ops.append(["unusable", conn, draw(st.sampled_from(["y", "a"])), draw(st.sampled_from(["a", "b", "z"]))])
         else:
             ops.append(["disconnect", conn])
     # LMDB: the query-statistics queue (30 slots, drained slowly by a thread) is already full / almost full / empty
@@ -272,7 +276,13 @@ class Schedule(Sub):
             pool = rig.storage.query_pool if backend == "kv" else None
             alive = [True, True]
 
+            last_req = [dict(), dict()]   # conn -> sub id (as sent, string ids only) -> frames seen when its latest REQ was fed
+
             def feed(ci, msg, turns=1):
+                if msg[0] == "REQ" and isinstance(msg[1], str):
+                    last_req[ci][msg[1]] = len(conns[ci].out)
+                elif msg[0] == "CLOSE" and isinstance(msg[1], str):
+                    last_req[ci][msg[1]] = None
                 m = list(msg)
                 if m[0] == "EVENT":
                     counter[0] += 1
@@ -316,12 +326,33 @@ class Schedule(Sub):
                     if pool:
                         pool.park = False  # settling means: every job gets to run
                         pool.release_all()
+                    rig.release_query_slots()
                     await rig.settle()
                 elif op[0] == "park" and pool:
                     pool.park = op[1]
                     nt = nt or op[1]
+                elif op[0] == "park":
+                    # SQL: all query slots taken (as by long queries of other clients) / given back
+                    if op[1]:
+                        await rig.hold_query_slots()
+                        nt = True
+                        labels.append("sql-query-slots-held")
+                    else:
+                        rig.release_query_slots()
                 elif op[0] == "release" and pool:
                     pool.release(op[1])
+                elif op[0] == "release":
+                    rig.release_query_slots()
+                elif op[0] == "advance":
+                    asyncio.get_running_loop()._voffset += op[1]   # time passes (any timer the relay armed may fire)
+                    for _ in range(4):
+                        await asyncio.sleep(0)
+                elif op[0] == "unusable" and alive[op[1]]:
+                    pending_close[op[1]].pop(op[2], None)
+                    closed_at[op[1]].pop(op[2], None)
+                    feed(op[1], ["REQ", op[2], BAD], 0)
+                    pending_close[op[1]][op[3]] = True
+                    feed(op[1], ["CLOSE", op[3]], 0)
                 elif op[0] == "burst" and alive[op[1]]:
                     nt = True
                     for i in range(op[2]):
@@ -350,8 +381,19 @@ class Schedule(Sub):
             if pool:
                 pool.park = False
                 pool.release_all()
+            rig.release_query_slots()
             await rig.settle()
             await note_handled()
+            # every REQ that was not closed or replaced afterwards has been answered by now (before any probe is sent)
+            for ci2, c2 in enumerate(conns):
+                if not alive[ci2] or c2.closed is not None or c2.task.done() or rig.stuck or viol:
+                    continue
+                for sid, n_at in last_req[ci2].items():
+                    if n_at is None:
+                        continue
+                    fr = c2.frames(n_at)
+                    if not any((f[0] == "EOSE" and f[1] == sid) or f[0] == "NOTICE" for f in fr):
+                        viol.append(V("req-met-with-silence", "a REQ is answered", conn=ci2, sub=sid, frames=fr[:5], ops=case["ops"]))
             for ci2, c2 in enumerate(conns):
                 for sid, n_at in closed_at[ci2].items():
                     if not viol and [f for f in c2.frames(n_at) if f[0] == "EVENT" and f[1] == sid]:
